@@ -605,11 +605,22 @@ def enclosing_stmt_of(pm, node):
     return cur
 
 
-def comp_guards(pm, node, stop) -> List[Tuple[ast.expr, bool]]:
-    """`if` clauses of the comprehensions (and ternaries / and-or operands) between `node` and its statement"""
+def comp_guards(pm, node, stop=None) -> List[Tuple[ast.expr, bool]]:
+    """Guards between `node` and its statement that statement-level guards do not see: the `if` clauses of the
+    comprehensions whose element `node` belongs to, ternaries and and/or operands."""
     from ..astutil import lexical_guards
     st = enclosing_stmt_of(pm, node)
-    return [gd for gd in lexical_guards(pm, node, stop=st)] if st is not None and st is not node else []
+    if st is None or st is node:
+        return []
+    out = list(lexical_guards(pm, node, stop=st))
+    child, cur = node, pm.get(node)
+    while cur is not None and cur is not st:
+        if isinstance(cur, (ast.ListComp, ast.SetComp, ast.GeneratorExp)) and child is cur.elt or \
+                isinstance(cur, ast.DictComp) and (child is cur.key or child is cur.value):
+            for gen in cur.generators:
+                out.extend((t, True) for t in gen.ifs)
+        child, cur = cur, pm.get(cur)
+    return out
 
 
 # ---------------------------------------------------------------------------------------------- result lists
